@@ -202,6 +202,26 @@ def r10_3(run):
     outer = outer[0]
     tests = [t for t in g.live if t.kind == 'test' and isinstance(t.ast, ast.Call) and dotted(t.ast.func) == 'isinstance' and
              dotted(t.ast.args[0]) == value and dotted(t.ast.args[1]) == 'list' and t.owner in ast.walk(loop)]
+    # every pending key is visited: nothing leaves the loop over the pending set early (a break after the HiddenServices leg
+    # would drop the options that follow it, and the acknowledgement then forgets them)
+    def own_level(stmts):
+        for st in stmts:
+            if isinstance(st, (ast.For, ast.While)):
+                for x in own_level(st.orelse):
+                    yield x
+                continue      # break/continue in there belong to the inner loop
+            if isinstance(st, (ast.Break, ast.Return)):
+                yield st
+            for fld in ('body', 'orelse', 'finalbody'):
+                for x in own_level(getattr(st, fld, []) or []):
+                    yield x
+            for h in getattr(st, 'handlers', []) or []:
+                for x in own_level(h.body):
+                    yield x
+    early = list(own_level(loop.body))
+    run.ob('R10.3', sv, early[0] if early else loop, 'the loop over the pending options is never left early', not early, slot='visit-all-pending',
+           message='save() leaves the loop over self.unsaved with %s: the options after that point are not part of the SETCONF, yet the acknowledgement clears them'
+                   % (type(early[0]).__name__.lower() if early else ''))
     # the first such test after the HiddenServices leg decides list vs scalar emission
     emit_tests = [t for t in tests if any(isinstance(a, ast.Call) and dotted(a.func) == AN + '.append' for b in (t.owner.body + t.owner.orelse) for a in ast.walk(b))]
     run.floor('R10.3', 'list/scalar emission tests in save', len(emit_tests), 1)
@@ -444,6 +464,7 @@ RULES = [
 from ..selftest import M  # noqa: E402
 F = 'txtorcon/torconfig.py'
 MUTANTS = [
+    M('hs-leg-breaks', F, "                            args.append(k)\n                            args.append(v)\n                continue\n", "                            args.append(k)\n                            args.append(v)\n                break\n", ['R10.3']),
     M('wrap-only-without-validate', F, "                value = self.parsers[name].validate(value, self, name)\n            if isinstance(value, list):", "                value = self.parsers[name].validate(value, self, name)\n            elif isinstance(value, list):", ['R10.7']),
     M('ack-clears-only-equal', F, "        self.__dict__['unsaved'] = {}\n        return self", "        for key in list(self.unsaved):\n            if self.unsaved[key] == self.config.get(key):\n                del self.unsaved[key]\n        return self", ['R10.5']),
     M('mark_unsaved-saves', F, "        if name in self.config and name not in self.unsaved:\n            self.unsaved[name] = self.config[self._find_real_name(name)]", "        if name in self.config and name not in self.unsaved:\n            self.unsaved[name] = self.config[self._find_real_name(name)]\n            self.save()", ['R10.1']),
